@@ -374,6 +374,32 @@ func cmdCheck(args []string) int {
 				continue
 			}
 		}
+		if o == nil && strings.Contains(n, "/at[") {
+			// a clause of a site the contract declares optional: the site may be absent as long
+			// as the function was generated without errors (its ensures carry the property)
+			i := strings.Index(n, "/at[")
+			uname, rest := n[:i], n[i+4:]
+			pat := rest
+			if j := strings.LastIndex(rest, "]/"); j >= 0 {
+				pat = rest[:j]
+			}
+			skip := false
+			for _, u := range units {
+				if u.name != uname || len(u.errs) != 0 || u.fc == nil {
+					continue
+				}
+				for _, sp := range u.fc.Sites {
+					if sp.Optional && sp.Pattern == pat {
+						skip = true
+					}
+				}
+			}
+			if skip {
+				nClaimed--
+				gone = append(gone, n)
+				continue
+			}
+		}
 		if o == nil {
 			// which unit?
 			reason := "claimed obligation was not generated from the current source"
